@@ -117,13 +117,20 @@ func (m *Mast) Delete(ctx context.Context, key, value interface{}) error {
 		return fmt.Errorf("savePathForRoot: %w", err)
 	}
 	m.size--
-	for m.size < m.shrinkBelowSize && m.height > 0 {
+	// Mirror of the grow rule: a tree of height h needs more than
+	// branchFactor^h entries and at least one key of layer >= h in its root.
+	for m.height > 0 && (m.size <= m.shrinkBelowSize || m.rootHasNoKeys()) {
 		err = m.shrink(ctx)
 		if err != nil {
 			return fmt.Errorf("shrink: %w", err)
 		}
 	}
 	return nil
+}
+
+func (m *Mast) rootHasNoKeys() bool {
+	node, ok := m.root.(*mastNode)
+	return ok && len(node.Key) == 0
 }
 
 func findEntry(ctx context.Context, m *Mast, key, value interface{}, options *findOptions) (*mastNode, int, error) {
